@@ -238,14 +238,23 @@ def r6_flushed_before_success(ctx):
     if not ctx.floor("R04.6", "write_all calls in write_with_padding", len(ws), 4) or not fl or not ok_rets:
         ctx.missing("R04.6", "flush calls / Ok returns in write_with_padding")
         return
+    conds = ctx.conds(body)
     for n, w in enumerate(ws):
-        ok, p = cfg.must_pass(cfg.succ(w.bb), ok_rets, via_blocks=[f.bb for f in fl])
+        # from the point where this write has succeeded (its failure leads to an error return, whatever shape that takes)
+        starts = _ok_succ(conds, w)
+        if not starts:
+            ctx.missing("R04.6", "test of the result of the write_all at line %s" % w.line)
+            continue
+        ok, p = cfg.must_pass(starts, ok_rets, via_blocks=[f.bb for f in fl])
         ctx.ob("R04.6", "write_with_padding:write#%d-is-flushed-before-Ok" % n, ok, w.site, "every path from this write to a success return passes a flush of the transport" if ok else
                "a record can be written and success reported without a flush: on a transport that stages bytes (TLS when the socket would block, any buffered writer) the frame stays unsent "
                "while the caller believes it is on its way", path=None if ok else render_path(body, p))
 
 
 def run(ctx):
+    from . import C11
+    C11.r6_every_write_under_buffer_lock(ctx)   # the records of one packet (payload pieces and their Waste frames) are not interleaved with another writer's
+    C11.r2_contiguity(ctx)
     r6_flushed_before_success(ctx)
     r1_waste_frames(ctx)
     r2_size_conversions(ctx)
